@@ -454,6 +454,22 @@ pub fn run(ctx: &Ctx) -> i32 {
             }
         }
     });
+    // long texts (tens of KiB) with multi-byte characters on every alignment around the 8 / 16 / 24 / 32 KiB
+    // read sizes: several characters are split across consecutive buffer ends of the re-encoder
+    let n_long = ctx.size(8, 200);
+    let long_acc = crate::par::run(n_long, 1, |i, acc| {
+        let text = crate::corpus::boundary_yaml_text(i + (seed as usize % 97));
+        acc.count("long_boundary_texts");
+        let enc = ENCS[i % 4];
+        let to = [Fmt::Json, Fmt::Yaml, Fmt::Msgpack][i % 3];
+        for bom in [true, false] {
+            for mode in [Mode::Slice, Mode::Reader(Sched::All), Mode::Reader(Sched::Fixed(8191 + i % 3))] {
+                translation_level(&text, enc, bom, &mode, false, to, acc);
+                translation_level(&text, enc, bom, &mode, true, to, acc);
+            }
+        }
+    });
+    acc.merge(long_acc);
     // streams shorter than the four bytes that encoding detection would like to see: one-character
     // documents, with and without the mark (document-less texts are left out: for them the UTF-8 slice
     // path differs from every other path - the recorded finding C02-yaml-documentless-stream)
